@@ -412,8 +412,11 @@ Section BuilderExt.
       + (* process_section *)
         intros it st st' H. rewrite process_section_S in H. destruct it as [|h body].
         * injection H as <-. apply ext_refl.
-        * apply bind_ok in H as (st1 & H1 & H). cbv zeta in H. apply bind_ok in H as (st2 & H2 & H).
-          injection H as <-. cbn [set_id b_arena]. apply IHsb in H1. apply IHbs in H2. eapply ext_trans; eauto.
+        * destruct (starts_with_header (h :: body)).
+          -- apply bind_ok in H as (st1 & H1 & H). cbv zeta in H. apply bind_ok in H as (st2 & H2 & H).
+             injection H as <-. cbn [set_id b_arena]. apply IHsb in H1. apply IHbs in H2. eapply ext_trans; eauto.
+          -- apply bind_ok in H as (st1 & H1 & H). cbv zeta in H. apply bind_ok in H as (st2 & H2 & H).
+             injection H as <-. cbn [set_id b_arena]. apply add_node_ext in H1. apply IHbs in H2. eapply ext_trans; eauto.
       + (* process_sections *)
         intros L bs st st' H. rewrite process_sections_S in H. destruct bs as [|h r].
         * injection H as <-. apply ext_refl.
@@ -852,16 +855,17 @@ Proof.
   split; [vm_compute; reflexivity|]. split; [vm_compute; reflexivity|]. repeat split; vm_compute; reflexivity.
 Qed.
 
-(* the premise is needed for the repaired walk too: a list item that starts with a list and holds
-   further blocks (F-ITEMLEAD) orphans a Reference node; a fresh start finds it (import walks
-   from every slot), the same note arriving as an update does not *)
+(* the witness of F-ITEMLEAD (a list item that starts with a list and holds further blocks used to
+   orphan a Reference node, which a fresh start found and an update did not): since the builder
+   repair the item is one section without text over all its blocks, nothing is orphaned, the run
+   is covered and import and update agree *)
 Definition orphan_note : list dblock := [DBList [[DBList [[P [Str "x"]; P [L "b"]]]; P [Str "z"]]]].
 
-Theorem index_history_orphan_refuted :
-  (exists s, import_state_v true [("d", None, orphan_note)] = Ok s /\ block_refs_to s "b" = Ok [3]) /\
+Theorem index_history_former_orphan :
+  (exists s, import_state_v true [("d", None, orphan_note)] = Ok s /\ block_refs_to s "b" = Ok [5]) /\
   (exists s0 s, import_state_v true [] = Ok s0 /\ run_updates true s0 [("d", None, orphan_note)] = Ok s /\
-     block_refs_to s "b" = Ok [] /\ exact_refs (arena_of s) "b" = [3] /\
-     covered_runb true s0 [("d", None, orphan_note)] = false).
+     block_refs_to s "b" = Ok [5] /\ exact_refs (arena_of s) "b" = [5] /\
+     covered_runb true s0 [("d", None, orphan_note)] = true).
 Proof.
   split.
   - eexists. split; vm_compute; reflexivity.
@@ -880,4 +884,4 @@ Print Assumptions update_key_evolves.
 Print Assumptions run_dead_stays_dead.
 Print Assumptions covers_of_wf.
 Print Assumptions index_history_as_found_refuted.
-Print Assumptions index_history_orphan_refuted.
+Print Assumptions index_history_former_orphan.
